@@ -86,7 +86,9 @@ def sim_case(case, res, body, session_kw=None):
         if S is not None:
             S.v("crash/daemon-left-its-event-loop", "cjet_main returned %r" % (e.status,))
         else:
-            res.inconclusive = "daemon exited during start-up: %r" % (e.status,)
+            # nothing was made to fail (start-up faults are a scenario of their own): a daemon that does not come up is broken
+            res.viol.append(("crash/daemon-exited-during-start-up", "cjet_main returned %r with arguments %r" % (e.status, kw.get("args", ("-f",)))))
+            return
     except Hang as e:
         res.inconclusive = "hang: %s" % e
         died = "hang"
